@@ -592,4 +592,12 @@ v("P-respond-helper-correct", [(SE, RESP_OLD, "        self._respond(output)\n\n
 v("47i-respond-helper-falsy", [(SE, RESP_OLD, "        self._respond(output)\n\n    async def _exec_property_and_respond("),
    (SE, "    async def _exec_method_and_respond(\n", "    def _respond(self, output: Any) -> None:\n        self._response_buffer.write(str(output or CMD_OK.decode()))\n\n    async def _exec_method_and_respond(\n")], {"C17": "R17.1r"})
 
+# ---------------------------------------------------------------- from the mutation sweep
+v("M1-check-after-acquire", [(P, "        self._check_start(awaitable=awaitable, ignore_lock=ignore_lock)\n        await self._enough_room.acquire()\n", "        await self._enough_room.acquire()\n        self._check_start(awaitable=awaitable, ignore_lock=ignore_lock)\n")], {"C02": "R02.4w", "C01": "R01.3"})
+v("M2-start_calls-not-initialised", [(P, "        self._start_calls: int = 0\n", "")], {"C10": "R10.3"})
+v("P-start-task-releases-on-failure", [(P, ACQ, ACQ + "        try:\n            self._check_start(awaitable=awaitable, ignore_lock=ignore_lock)\n        except BaseException:\n            self._enough_room.release()\n            raise\n")], {"C01": "ok", "C02": "ok"})
+
+v("M3-unix-server-start-function-not-stored", [(SV, "        self._start_unix_server = start_unix_server\n", "")], {"C19": "R19.3"})
+v("M4-members-loop-breaks", [(PA, "            else:\n                continue\n            subparser.set_defaults", "            else:\n                break\n            subparser.set_defaults")], {"C16": "R16.2"})
+
 VARIANTS = V
